@@ -50,6 +50,16 @@ MUTANTS = [
     ("num-iter-off-by-one", G, "ret.num_iterations = i\n", "ret.num_iterations = i + 1\n", ["C12"]),
     ("stale-fixed-set", G, "        self._fixed_gradient_indices = {v.gradient_index for v in self._vertices if v.fixed}", "        if not self._fixed_gradient_indices:\n            self._fixed_gradient_indices = {v.gradient_index for v in self._vertices if v.fixed}", ["C15", "C06"]),
     ("vertex-se2-9g", VX, 'return "VERTEX_SE2 {} {} {} {}\\n".format(self.id, self.pose[0], self.pose[1], self.pose[2])', 'return "VERTEX_SE2 {} {:.9g} {:.9g} {:.9g}\\n".format(self.id, self.pose[0], self.pose[1], self.pose[2])', ["C13"]),
+    # ---- behaviour-preserving rewrites (expected list empty: run with --all-checks, every check must stay silent) ----
+    ("EQUIV solve on an explicit CSC copy", G, "dx = spsolve(self._hessian, -self._gradient)", "dx = spsolve(self._hessian.tocsc(), -self._gradient)", []),
+    ("EQUIV graph chi2 summed with numpy", G, "self._chi2 = sum((e.calc_chi2() for e in self._edges))", "self._chi2 = float(np.sum([e.calc_chi2() for e in self._edges][::-1]))", []),
+    ("EQUIV gradient blocks associated the other way", BE, "np.dot(np.dot(np.transpose(err), self.information), jacobian)", "np.dot(np.transpose(err), np.dot(self.information, jacobian))", []),
+    ("EQUIV update by rebinding instead of +=", G, "v.pose += dx[v.gradient_index: v.gradient_index + v.pose.COMPACT_DIMENSIONALITY]", "v.pose = v.pose + dx[v.gradient_index: v.gradient_index + v.pose.COMPACT_DIMENSIONALITY]", []),
+    ("EQUIV angle wrap through arctan2", UT, "return (angle + np.pi) % (TWO_PI) - np.pi", "return float(np.arctan2(np.sin(angle), np.cos(angle)))", []),
+    ("EQUIV edges linearised in reverse order", G, "(e.calc_chi2_gradient_hessian() for e in self._edges), _Chi2GradientHessian())", "(e.calc_chi2_gradient_hessian() for e in self._edges[::-1]), _Chi2GradientHessian())", []),
+    ("EQUIV vertices updated in reverse order", G, "            for v in self._vertices:\n                # Fixed vertices are constants", "            for v in self._vertices[::-1]:\n                # Fixed vertices are constants", []),
+    ("EQUIV angle range (-pi, pi]", UT, "return (angle + np.pi) % (TWO_PI) - np.pi", "r = (angle + np.pi) % (TWO_PI) - np.pi\n    return np.pi if r == -np.pi else r", []),
+    ("EQUIV hessian converted to CSR before the solve", G, "dx = spsolve(self._hessian, -self._gradient)", "dx = spsolve(self._hessian.tocsr(), -self._gradient)", []),
     ("info-lower-triangle", EO, 'self.estimate[2]) + " ".join([str(x) for x in self.information[np.triu_indices(3, 0)]])', 'self.estimate[2]) + " ".join([str(x) for x in self.information.T[np.triu_indices(3, 0)]])', []),
     ("params-after-edges", G, "            if self._g2o_params:\n                for g2o_param in self._g2o_params.values():\n                    f.write(g2o_param.to_g2o())\n\n            for v in self._vertices:\n                f.write(v.to_g2o())\n",
      "            for v in self._vertices:\n                f.write(v.to_g2o())\n\n            if self._g2o_params:\n                for g2o_param in self._g2o_params.values():\n                    f.write(g2o_param.to_g2o())\n", ["C13"]),
